@@ -11,6 +11,7 @@ import PyamgV.Proofs.ExtC10bImmBsr
 import PyamgV.Proofs.ExtC10bCFit
 import PyamgV.Proofs.ExtC10bGmresArr
 import PyamgV.Proofs.ExtC10bGmresFull
+import PyamgV.Proofs.ExtC10cComplex
 import Mathlib.Analysis.Real.Sqrt
 import Mathlib.Tactic.IntervalCases
 import Mathlib.Algebra.Order.Ring.Rat
@@ -33,7 +34,9 @@ case; complex case = pairs `(re, im)` over such a field with the conjugated dot 
 arbitrary matrix, `Bᴴ` in the code).  Extension E24 adds: the pattern-restricted product kernels
 (`incomplete_mat_mult_csr`, `incomplete_mat_mult_bsr`), the complex tentative prolongator, and the whole
 GMRES energy-minimisation loop (executable model `energyGmres`, property proved for every input on which
-the model returns). -/
+the model returns).  Extension E48 adds: the CG / CGNR energy-minimisation loop (`energyCG`, property proved for
+every input), filtered Jacobi (`filteredLoop`, every input on which it returns), and the complex code paths:
+the constraint theorem with `Bᴴ` over rings with involution and the same models run on Gaussian rationals. -/
 namespace PyamgV.Props.C10
 open PyamgV
 
@@ -314,6 +317,72 @@ theorem gmres_with_projection {K : Type} [Field K] [DecidableEq K] {m n k : Type
         (PyamgV.C10.project J Z Bh (R' * B) R') T maxiter tol).T * B = T * B :=
   PyamgV.C10b.gmresMx_keeps_product fr sc (fun X => PyamgV.C10.project J Z Bh (X * B) X) f B
     (fun X => satisfy_constraints_exact J Z Bh B X h) R' T maxiter tol
+
+
+/-! ## extension E48
+
+### CG / CGNR energy minimisation (`smooth.cg_prolongation_smoothing`, `smooth.cgnr_prolongation_smoothing`)
+
+`C10M.energyCG` (Model/C10.lean: the whole `while` loop with preconditioner, `beta`, projection of `AP`, `alpha`,
+root-node reset inside the loop; run by the driver in `c10_energy` and `ext_c10c_energy`, compared with
+`energy_prolongation_smoother(krylov='cg'|'cgnr')`) satisfies the property on **every** input of the right
+shape -- whatever the scalars, the conjugation function, the order, `maxiter`, `tol`, and however the run ends
+(tolerance, fuel, breakdown, a singular local Gram matrix after some updates). -/
+
+/-- the executable preconditioner keeps a matrix constrained (`scaling_keeps_zero` for `Precond.apply`) -/
+restate cg_precond_keeps_zero := PyamgV.C10c.pre_annihilates
+/-- the projection of a pattern-restricted matrix is inside the frame, annihilates `B_c`, vanishes off the pattern -/
+restate cg_projection_good := PyamgV.C10c.good_proj
+/-- one update `T <- I_F (T + alpha P) + P_I` with a constrained direction -/
+restate cg_update_step := PyamgV.C10c.rel_step
+/-- the loop, any pattern-restricted operator (`A X` or `A^H A X` on the pattern) -/
+restate cg_loop_invariant := PyamgV.C10c.loop_rel
+/-- **cg / cgnr energy minimisation, executable model, every input**: on rows that are not root rows
+`(T'·B_c)_i = (T·B_c)_i` and no entry outside the pattern changes; a root row is untouched or the identity row -/
+restate cg_run_property := PyamgV.C10c.cg_run_property
+/-- without root nodes: `T'·B_c = T·B_c`, `supp(T' − T) ⊆ pattern` -/
+restate cg_run_plain := PyamgV.C10c.cg_run_plain
+/-- the shape / pattern hypotheses as the driver decides them on every call (flag `hyps`) -/
+restate cg_hyps_sound := PyamgV.C10c.hypsOK_sound
+restate cg_run_checked := PyamgV.C10c.cg_run_checked
+
+/-! ### complex energy minimisation, complex filtered Jacobi
+
+Over a commutative ring with involution the projection uses `Bᴴ`; the models run on Gaussian rationals
+(`Model/ExtC10cComplex.lean`: the same generic functions with `conj = CRat.conj` and NumPy's lexicographic
+order; ops `ext_c10c_energy c`, `ext_c10c_gmres c`, `ext_c10c_jacf`, `ext_c10c_smooth`). -/
+
+/-- with `Bh = Bᴴ` the local Gram matrix is `Σ_{j∈J_i} conj(B[j,a])·B[j,b]` ... -/
+restate conj_gram := PyamgV.C10c.gram_conj
+/-- ... and Hermitian -/
+restate conj_gram_hermitian := PyamgV.C10c.gram_conj_hermitian
+/-- `satisfy_constraints` with `Bᴴ` and inverses of the conjugated Gram matrices: `U'·B = 0` -/
+restate conj_satisfy_constraints := PyamgV.C10c.satisfy_constraints_conj
+/-- **`(P − T)·B_c = 0`** for every sequence of updates generated from matrices projected with `Bᴴ` -/
+restate conj_updates_constraint := PyamgV.C10c.conj_updates_constraint
+/-- complex cg / cgnr, executable model on Gaussian rationals, every input -/
+restate cgC_run_property := PyamgV.C10c.cgC_run_property
+restate cgC_run_plain := PyamgV.C10c.cgC_run_plain
+/-- complex gmres, executable model on Gaussian rationals, every input on which it returns -/
+restate gmresC_run_property := PyamgV.C10c.gmresC_run_property
+restate gmresC_precond_ok := PyamgV.C10c.mkPrecondC_ok
+/-- **filtered Jacobi, executable model (`filteredLoop`), any field and conjugation, every input on which it
+returns**: `P'·B_c = P·B_c`, every projected update annihilates `B_c`, nothing outside the union of the
+step patterns changes -/
+restate filtered_run_property := PyamgV.C10c.filtered_run_property
+restate filteredC_run_property := PyamgV.C10c.filteredC_run_property
+
+/-- unfiltered complex Jacobi / Richardson: `smoothing_polynomial` holds over every commutative ring; on the
+Gaussian rationals the driver evaluates both of its sides (`ext_c10c_p_smooth`) next to the array model -/
+theorem smoothing_polynomial_crat {n c : Nat} (M : Matrix (Fin n) (Fin n) PyamgV.CRat)
+    (T : Matrix (Fin n) (Fin c) PyamgV.CRat) (d : ℕ) :
+    (fun P : Matrix (Fin n) (Fin c) PyamgV.CRat => P - M * P)^[d] T = (1 - M) ^ d * T :=
+  PyamgV.C10.smoothing_polynomial M T d
+
+/-- non-vacuity: a Hermitian complex 2×2 run (`A = [[2, i], [-i, 3]]`, `T = I`, `B_c = (1, i)ᵀ`) satisfies the
+hypotheses of `cgC_run_plain` for cg and cgnr, makes two updates and changes `T` -/
+restate cgC_example := PyamgV.C10c.exC_plain
+restate cgC_example_moves := PyamgV.C10c.exC_moves
 
 /-! ## non-vacuity -/
 
